@@ -2,6 +2,7 @@ import EmmetProofs.HtmlScan
 import EmmetProofs.SplitValueRanges
 import EmmetProofs.CssMatchRanges
 import EmmetProofs.HtmlAttrs
+import EmmetProofs.HtmlMatchHead
 /-! # C16 — scanners are total and report only well-formed ranges (HTML scanner, CSS scanner, split_value; all strings) -/
 namespace EmmetProps
 open H
@@ -50,5 +51,18 @@ example : (C.splitValue (("1px -a (b c) 'd".toList).map Char.toNat)) = [(0, 3), 
 
 example : (C.matchLoop 3 (C.scan (("a{b:c;}".toList).map Char.toNat)) [] none).isSome = true := by decide +kernel
 example : (C.inwardLoop (("a{b:c;}".toList).map Char.toNat).toArray 0 (C.scan (("a{b:c;}".toList).map Char.toNat)) [] none) = [(0, 7), (2, 6), (4, 5)] := by decide +kernel
+
+/-- HTML: `match()` equals the first entry of `balanced_outward()` — for EVERY source, position and mode (the two callbacks run over
+the same scanner events: ANY event list, any stack of open tags) -/
+theorem C16_html_match_is_first_outward (xml : Bool) (pos : Int) (s : Str) (special : List (Str × Option (List Str))) :
+    matchLoop xml pos (scan s special) [] = (outwardLoop xml pos (scan s special) [] []).head? :=
+  H.match_eq_outward_head xml pos (scan s special) []
+
+/-- HTML: every entry of `balanced_outward()` strictly contains the position (open tag start < pos < end of the close tag, or of the tag
+itself when self-closed) — for EVERY source, position and mode -/
+theorem C16_html_outward_contains (xml : Bool) (pos : Int) (s : Str) (special : List (Str × Option (List Str))) :
+    ∀ m ∈ outwardLoop xml pos (scan s special) [] [], m.Contains pos := H.outward_contains xml pos (scan s special)
+
+example : (outwardLoop false 8 (scan ("<div><p>x</p></div>".toList.map Char.toNat)) [] []).length = 2 := by decide +kernel
 
 end EmmetProps
